@@ -35,7 +35,7 @@ var passThroughPrefixes = []string{
 	"io.LimitReader", "bufio.New", "net/url.", "(*net/url.URL).", "strconv.", "(*strings.", "(*bytes.", "os.ExpandEnv",
 	"tools.ExpandPath", "tools.ExpandConfigPath", "tools.ResolveSymlinks", "tools.CanonicalizePath", "tools.CanonicalizeSystemPath", "tools.TrimCurrentPrefix",
 	"io.NopCloser", "errors.Wrap", "errors.New", "io.NewSectionReader", "tools.NewRetriableReader", "tools.NewBodyWithCallback",
-	"tools.NewHashingReader", "(*os.File).Name", "(*github.com/leonelquinteros/gotext.Locale).Get", "errors.Errorf", "errors.Wrapf", "(time.Time).", "(*net/http.Request).WithContext", "(*net/http.Request).Clone", "context.WithValue",
+	"tools.NewHashingReader", "(*os.File).Name", "(*github.com/leonelquinteros/gotext.Locale).Get", "errors.Errorf", "errors.Wrapf", "(time.Time).", "(*net/http.Request).WithContext", "(*net/http.Request).Clone", "context.WithValue", "tools.Undent", "tools.Indent",
 }
 
 func isPassThrough(name string) bool {
